@@ -265,6 +265,8 @@ def static_classes(case):
             out.add("C03-interval-alias")
         if c["Optional"] and not bound and not clause_spec3(c):
             out.add("C10-optional-unbound")
+        if clause_spec3(c) and c["P"]["a"] is not None and (case["lo"]["lower"] is not None or case["lo"]["upper"] is not None):
+            out.add("C03-spec3-global-bounds")
         if clause_spec3(c):
             if c["Optional"] and clause_has_alias(c):
                 out.add("C10-spec3-alias")
@@ -289,6 +291,8 @@ def classify(case, verdict):
         return "C03-spec3-after-bound", "fully specified clause after bound ones: AppendTable error"
     if "C10-spec3-alias" in st and (res == "err" or (res == "ok" and len(case["result"]["rows"]) < n)):
         return "C10-spec3-alias", "fully specified OPTIONAL clause with alias: error or rows dropped"
+    if "C03-spec3-global-bounds" in st and res == "ok" and len(case["result"]["rows"]) > n:
+        return "C03-spec3-global-bounds", "fully specified clause with a temporal predicate: the existence test ignores the global time bounds"
     if "C03-oid-unchecked" in st and res == "ok":
         return "C03-oid-unchecked", "ID alias on a node object reuses a name of the clause: written without the validBinding test"
     if "C10-optional-unbound" in st and res == "ok" and len(case["result"]["rows"]) < n:
